@@ -6,7 +6,8 @@ same canonical form as the analysed modules (canon.py) and compared structurally
   * a Name of the node that is a *local variable* of its enclosing function(s) may differ from the pattern's
     name, as long as the correspondence is one-to-one within the comparison (so `escaping = not escaping`
     matches `esc = not esc`); parameters, attributes, globals and callees must agree literally;
-  * the pattern name `__` matches any expression; a pattern statement `...` matches any run of statements;
+  * the pattern name `__` matches any expression, `f(___)` a call of f with any arguments; a pattern statement `...`
+    matches any run of statements;
   * positions, contexts and type comments are ignored.
 
 `NormText` is the string returned by pysrc.norm(): it compares equal to a plain string when either the texts
@@ -128,6 +129,8 @@ class Match:
             if p.name is not None and not self.name(p.name, n.name):
                 return False
             return self.opt(p.type, n.type) and self.block(p.body, n.body)
+        if isinstance(p, ast.Call) and len(p.args) == 1 and not p.keywords and isinstance(p.args[0], ast.Name) and p.args[0].id == "___":
+            return self.node(p.func, n.func)  # f(___) : any arguments
         if isinstance(p, (ast.Nonlocal,)):
             return len(p.names) == len(n.names) and all(self.name(a, b) for a, b in zip(p.names, n.names))
         for fld in p._fields:
